@@ -908,13 +908,47 @@ def _resolve(prog, name):
     return ('none', norm)
 
 
+class Callee(str):
+    """the callee spelling handed to a builtin. rustc prints `path::method::<turbofish>`; builtins that look at the method
+    name with endswith()/rsplit('::', 1) must see `method`, not the turbofish, while the generic arguments stay searchable."""
+    __slots__ = ('base',)
+
+    def __new__(cls, s):
+        o = str.__new__(cls, s)
+        o.base = _strip_tail_generics(s)
+        return o
+
+    def endswith(self, suffix, *a):
+        return str.endswith(self.base, suffix, *a) or str.endswith(self, suffix, *a)
+
+    def rsplit(self, sep=None, maxsplit=-1):
+        if sep == '::' and maxsplit == 1:
+            return str.rsplit(self.base, sep, maxsplit)
+        return str.rsplit(self, sep, maxsplit)
+
+
+def _strip_tail_generics(s):
+    if not s.endswith('>'):
+        return s
+    d = 0
+    for i in range(len(s) - 1, -1, -1):
+        c = s[i]
+        if c == '>' and (i == 0 or s[i - 1] != '-'):
+            d += 1
+        elif c == '<':
+            d -= 1
+            if d == 0:
+                return s[:i - 2] if s[max(0, i - 2):i] == '::' else s
+    return s
+
+
 def invoke(ctx, tgt, name, args):
     k = tgt[0]
     if k == 'mir':
         return exec_func(ctx, tgt[1], args)
     if k == 'builtin':
         ctx.note_builtin(tgt[2])
-        return tgt[1](ctx, args, name)
+        return tgt[1](ctx, args, name if type(name) is Callee else Callee(name))
     if k == 'closure_call':
         f = args[0]
         a = args[1]
@@ -1348,6 +1382,8 @@ def eval_const_expr(ctx, f, s):
         return exec_func(ctx, prog.consts[st], [])
     if st in ('Option::None', 'std::option::Option::None', 'core::option::Option::None'):
         return NONE
+    if re.match(r'^(std|core)::iter::Empty(::<.*>)?\(', s):
+        return Agg('It:seq', None, ((), 0, 0))
     # a const declared inside a function: defined under a trimmed path, referenced by a longer one
     segs = st.split('::')
     for k in range(1, len(segs) - 1):
